@@ -283,7 +283,7 @@ func main() {
 		return
 	}
 	rep = report.New("C19", tier, "model_checking")
-	rep.Rule = "E2: breadth-first search over all AddLink histories (each of the 10 candidate links between 5 irregularly placed nodes at most once; straight / detour geometry, stored direction and speed fixed per link by a table; tables with speeds {1,4} and uniform 0.1 (thorough: three {1,4} tables, uniform 0.1, {0.25,0.5}, uniform 25)) to depth 5 (7), deduplicated by (link set, node-id assignment); successor = replay on a fresh Network; in every distinct state, for both MinimizeOptions, all 49 ordered pairs of query points from {5 node positions, 2 off-network points} (pairs with a non-unique nearest node skipped); E3: in states with <= 3 links every query is additionally explored over all map-iteration orders of the instrumented route package with at most 1 deviation. every state of >= 2 links is also reached on one object with all queries asked before the last AddLink (queries as operations); an 8x8 street grid (64 nodes, 112 links: the node index has several leaves) with all 4096 ordered pairs of 64 off-node query points (some links densified to 1500 vertices), and a straight road of 80 collinear nodes with 144 query pairs; Oracle: Floyd-Warshall minimum cost, chain validity, totals, emptiness. Non-trivial = states in which some node pair has at least two distinct routes."
+	rep.Rule = "E2: breadth-first search over all AddLink histories (each of the 10 candidate links between 5 irregularly placed nodes at most once; straight / detour geometry, stored direction and speed fixed per link by a table; tables with speeds {1,4} and uniform 0.1 (thorough: three {1,4} tables, uniform 0.1, {0.25,0.5}, uniform 25)) to depth 5 (7), deduplicated by (link set, node-id assignment); successor = replay on a fresh Network; in every distinct state, for both MinimizeOptions, all 49 ordered pairs of query points from {5 node positions, 2 off-network points} (pairs with a non-unique nearest node skipped); E3: in states with <= 3 links every query is additionally explored over all map-iteration orders of the instrumented route package with at most 1 deviation. every state of >= 2 links is also reached on one object with all queries asked before the last AddLink (queries as operations); an 8x8 street grid (64 nodes, 112 links: the node index has several leaves) with all 4096 ordered pairs of 64 off-node query points (some links densified to 1500 vertices), the same as a 9x7 grid in longitude/latitude-like coordinates (63 nodes, 3969 query pairs) and as 13x13 scattered nodes (169 nodes, 361 query points inside and up to three steps outside the network, 6 partners each), and a straight road of 80 collinear nodes with 144 query pairs; Oracle: Floyd-Warshall minimum cost, chain validity, totals, emptiness. Non-trivial = states in which some node pair has at least two distinct routes."
 	type tabSpec struct {
 		variant int
 		speeds  [2]float64
@@ -418,13 +418,18 @@ func main() {
 				break
 			}
 			for _, opt := range []route.MinimizeOption{route.Distance, route.Time} {
-				net, p := build(tab, h, opt)
-				if p != "" {
+				if _, p := build(tab, h, opt); p != "" {
 					continue
 				}
 				for _, from := range queries[:5] {
 					for _, to := range queries[:5] {
-						st := sched.Explore(sched.Config{Bound: 1, EnvChoices: true, Setup: func() { net, _ = build(tab, h, opt) }, Body: func() sched.Result {
+						st := sched.Explore(sched.Config{Bound: 1, EnvChoices: true, Body: func() sched.Result {
+							// the whole history runs inside the controlled region: map iteration
+							// in AddLink is an environment choice like map iteration in a query
+							net, p := build(tab, h, opt)
+							if p != "" {
+								return sched.Result{Outcome: p, Violation: "AddLink-panic"}
+							}
 							sym, det, _ := judge(tab, h, opt, net, from, to)
 							return sched.Result{Outcome: sym + det, Violation: sym}
 						}})
@@ -444,12 +449,31 @@ func main() {
 	// per node) to have several leaves: an 8x8 street grid of 64 slightly
 	// displaced nodes and 112 links, 64 query points off the nodes, all 4096
 	// ordered pairs, both options
-	{
+	// the same street grid as 9x7 nodes in longitude/latitude-like coordinates
+	// (x around -98, y around 41, steps 0.5 and 0.3: the two coordinate ranges
+	// are disjoint and the boxes of the node index are no squares)
+	for _, gv := range []struct {
+		name           string
+		nx, ny         int
+		ox, oy, sx, sy float64
+		jit, qx, qy    float64
+		desc           string
+		scatter        bool // displacements of up to 0.4 of a step, query points also in a margin of three steps around the network, 6 partners per query point
+	}{
+		{"grid-8x8", 8, 8, 0, 0, 100, 100, 1, 37, -21, "8x8 grid, node (i,j) at (100i+(7i+3j)%5, 100j+(3i+5j)%7)", false},
+		{"grid-lonlat-9x7", 9, 7, -100, 40, 0.5, 0.3, 0.01, 0.185, -0.063, "9x7 grid, node (i,j) at (-100+0.5i+0.01*((7i+3j)%5), 40+0.3j+0.01*((3i+5j)%7))", false},
+		{"scattered-lonlat-13x13", 13, 13, -94, 44, 0.15, 0.15, 0.006, 0.071, 0.083, "13x13 grid, node (i,j) at (-94+0.15i+0.006*((37i+101j+13ij)%11), 44+0.15j+0.006*((53i+29j+7ij)%11))", true},
+	} {
+		nx, ny := gv.nx, gv.ny
 		save := nodePos
 		nodePos = nil
-		for j := 0; j < 8; j++ {
-			for i := 0; i < 8; i++ {
-				nodePos = append(nodePos, geom.Point{X: float64(100*i + (i*7+j*3)%5), Y: float64(100*j + (i*3+j*5)%7)})
+		for j := 0; j < ny; j++ {
+			for i := 0; i < nx; i++ {
+				if gv.scatter {
+					nodePos = append(nodePos, geom.Point{X: gv.ox + gv.sx*float64(i) + gv.jit*float64((i*37+j*101+13*i*j)%11), Y: gv.oy + gv.sy*float64(j) + gv.jit*float64((i*53+j*29+7*i*j)%11)})
+					continue
+				}
+				nodePos = append(nodePos, geom.Point{X: gv.ox + gv.sx*float64(i) + gv.jit*float64((i*7+j*3)%5), Y: gv.oy + gv.sy*float64(j) + gv.jit*float64((i*3+j*5)%7)})
 			}
 		}
 		var tab []link
@@ -474,13 +498,13 @@ func main() {
 			sp := []float64{1, 4, 2}[(a+2*b)%3]
 			tab = append(tab, link{a, b, g, sp, l})
 		}
-		for j := 0; j < 8; j++ {
-			for i := 0; i < 8; i++ {
-				if i < 7 {
-					add(8*j+i, 8*j+i+1)
+		for j := 0; j < ny; j++ {
+			for i := 0; i < nx; i++ {
+				if i < nx-1 {
+					add(nx*j+i, nx*j+i+1)
 				}
-				if j < 7 {
-					add(8*j+i, 8*(j+1)+i)
+				if j < ny-1 {
+					add(nx*j+i, nx*(j+1)+i)
 				}
 			}
 		}
@@ -489,20 +513,27 @@ func main() {
 			h[i] = i
 		}
 		var qs []geom.Point
-		for j := 0; j < 8; j++ {
-			for i := 0; i < 8; i++ {
-				qs = append(qs, geom.Point{X: float64(100*i + 37), Y: float64(100*j - 21)})
+		qlo, qhx, qhy := 0, nx, ny
+		if gv.scatter {
+			qlo, qhx, qhy = -3, nx+3, ny+3
+		}
+		for j := qlo; j < qhy; j++ {
+			for i := qlo; i < qhx; i++ {
+				qs = append(qs, geom.Point{X: gv.ox + gv.sx*float64(i) + gv.qx, Y: gv.oy + gv.sy*float64(j) + gv.qy})
 			}
 		}
 		for _, opt := range []route.MinimizeOption{route.Distance, route.Time} {
 			net, p := build(tab, h, opt)
 			if p != "" {
-				rep.Violation("AddLink|panic", map[string]interface{}{"history": "8x8 grid", "panic": p})
+				rep.Violation("AddLink|panic", map[string]interface{}{"history": gv.name, "panic": p})
 				continue
 			}
 			states++
-			for _, from := range qs {
-				for _, to := range qs {
+			for fi, from := range qs {
+				for ti, to := range qs {
+					if gv.scatter && (ti-fi*7-3)%len(qs)%61 != 0 {
+						continue
+					}
 					sym, det, skip := judge(tab, h, opt, net, from, to)
 					queriesRun++
 					if skip {
@@ -513,7 +544,7 @@ func main() {
 						if opt == route.Time {
 							o = "Time"
 						}
-						rep.Violation(fmt.Sprintf("ShortestRoute|%s|grid-8x8|%s", o, sym), map[string]interface{}{"network": "8x8 grid, node (i,j) at (100i+(7i+3j)%5, 100j+(3i+5j)%7), links between grid neighbours, speeds {1,4,2}[(a+2b)%3]", "from": from, "to": to, "observed": det})
+						rep.Violation(fmt.Sprintf("ShortestRoute|%s|%s|%s", o, gv.name, sym), map[string]interface{}{"network": gv.desc + ", links between grid neighbours, speeds {1,4,2}[(a+2b)%3]", "from": from, "to": to, "observed": det})
 					}
 				}
 			}
